@@ -281,6 +281,19 @@ def doOp (ctx : Ctx) (line : String) : Ctx × String × String :=
       | some P => specSuccs P (rest == "cap")
       | none => "-"
     (ctx, s!"{v.length} {";".intercalate v}", S)
+  | "gennull" =>
+    -- generation from the null-move clone (side flipped, en passant target and key kept).
+    -- S: the legal (capturing) moves of the same placement with the other side to move and NO en
+    -- passant target — defined when neither side is in check (the engine makes a null move only then)
+    let mode := if rest == "cap" then Mode.caps else Mode.all
+    let nb : Pos := { ctx.cur with toMove := ctx.cur.toMove.opp }
+    let v := sortStrings ((generateMoves H nb mode).map succStr)
+    let S := match ctx.spec with
+      | some P =>
+        if Spec.inCheck P .white || Spec.inCheck P .black then "-"
+        else specSuccs { P with side := P.side.opp, ep := none } (rest == "cap")
+      | none => "-"
+    (ctx, s!"{v.length} {";".intercalate v}", S)
   | "pick" | "pickc" =>
     let mode := if op == "pickc" then Mode.caps else Mode.all
     let found := (generateMoves H ctx.cur mode).filter fun p => moveId p == rest
@@ -480,10 +493,13 @@ def main (args : List String) : IO Unit := do
       | "eval" => runG seed (evalOps (n 0 1000))
       | "search" => runG seed (searchOps (n 0 20) (n 1 30) ((rest.drop 2).map fun a => a.replace "_" " "))
       | "mate" => runG seed (mateOps (n 0 20) ((rest.drop 1).map fun a => a.replace "_" " "))
+      | "zug" => runG seed (zugOps (n 0 20) ((rest.drop 1).map fun a => a.replace "_" " "))
       | "matesoon" => runG seed (mateSoonOps (n 0 20) ((rest.drop 1).map fun a => a.replace "_" " "))
       | "retromate" => runG seed (retroMateOps (n 0 20) ((rest.drop 1).map fun a => a.replace "_" " "))
       | "rep" => runG seed (repOps (n 0 20) (n 1 30) (n 2 4) ((rest.drop 3).map fun a => a.replace "_" " "))
       | "cap" => runG seed (capOps (n 0 50) (n 1 30) (n 2 6))
+      | "castlerights" => runG seed (castleRightsLattice ((rest.drop 0).map fun a => a.replace "_" " "))
+      | "rights" => runG seed (rightsLattice ((rest.drop 0).map fun a => a.replace "_" " "))
       | "chkmoves" => runG seed (chkMoveOps (n 0 1) ((rest.drop 1).map fun a => a.replace "_" " "))
       | "heavy" => runG seed (heavyOps (n 0 10) ((rest.drop 1).map fun a => a.replace "_" " "))
       | "dense" => runG seed (denseOps (n 0 10) (n 1 6) ((rest.drop 2).map fun a => a.replace "_" " "))
